@@ -2,6 +2,14 @@
 import importlib
 
 GROUPS = {
+    "C14": "backoff",
+    "C16": "reconnect",
+    "C12": "hedge",
+    "C15": "ratelimiter",
+    "C02": "ratelimiter",
+    "C05": "retry",
+    "C18": "health",
+    "C10": "cache",
     "C01": "bulkhead", "C07": "bulkhead",
     "C03": "circuit", "C04": "circuit", "C09": "circuit",
 }
